@@ -152,8 +152,16 @@ CONTRACTS = [
                                      {'graph_todos': Tuple(kind='list'),
                                       'range_todos': Union(Tuple(kind='list'), Tuple(Str(maxlen=4), kind='list'),
                                                            Tuple(Str(maxlen=4), Str(maxlen=4), kind='list')),
-                                      'log': AnyObj(), 'dep_graph': AnyObj(), 'cell_map': Const({})})),
-             ensures=[range_todos_emptied], raises={e: range_todos_emptied for e in PYCEL_ERRORS}),
+                                      'log': AnyObj(),
+                                      # on a failed calculation the dependants of the failed node are un-cached
+                                      'dep_graph': Namespace(successors=Abstract('successors', Union(
+                                          Tuple(kind='list'), Tuple(ObjRef(), kind='list'),
+                                          Tuple(ObjRef(), ObjRef(), kind='list')))),
+                                      '_reset': Abstract('_reset', NoneT()),
+                                      'cell_map': AnyObj()})),
+             ensures=[range_todos_emptied], raises={e: range_todos_emptied for e in PYCEL_ERRORS},
+             notes='no cell is pending (graph_todos empty): the exits of the range / cell calculations; _reset by its '
+                   'C01 contract (it does not raise)'),
     Contract(EVAL_CTX + '.eval_func', 'C09', record=True,
              closure_env=(EVAL_CTX, ['cls', 'evaluate', 'evaluate_range', 'logger', 'plugins']),
              prepare=prepare_eval_func,
@@ -199,6 +207,7 @@ def _plugin():
 
 def bounded(tier, seed, R):
     import logging
+    import os
     import random
     from contracts import wbgen as W
     from pycel.excelutil import PyCelException
@@ -218,6 +227,9 @@ def bounded(tier, seed, R):
                                      'F1': '=A2+B1'}, 'captured'),
             W.WB({'A1': 'a', 'A2': 5}, {'B1': '=IF(ISERROR(A1+1),3,4)', 'C1': '=A2+1', 'D1': '=IF(ISERROR(A1+1),C1,4)',
                                        'E1': '=SUM(C1:D1)'}, 'captured-value')]
+    # a formula cell that is a member of an unbounded range (the range is evaluated through its reference cell)
+    wbs += [W.WB({'A1': 1, 'A3': 3}, {'A2': '=A1+1', 'B4': '=MAX(A:A)', 'B5': '=B4+1', 'C1': '=A1*2'}, 'unbounded-member'),
+            W.WB({'A1': 1, 'B1': 4}, {'A2': '=A1+1', 'A3': '=A2*B1', 'C4': '=SUM(A:A)+SUM(1:1)', 'C5': '=C4+B1'}, 'unbounded-member2')]
     cyc = [W.WB({'C1': 1}, {'A1': '=0.5*B1+C1', 'B1': '=0.25*A1+2', 'D1': '=C1*3', 'E1': '=A1+D1'}, 'cycle'),
            W.WB({'C1': 2}, {'A1': '=0.25*SUM(B1:B2)+C1', 'B1': '=0.5*A1', 'B2': '=0.5*A1+1', 'D1': '=C1+1'}, 'cycle-range')]
     R.bound = f'{len(wbs)} acyclic + {len(cyc)} circular workbooks x formula cells x 3 failure kinds x 2 modes'
@@ -235,13 +247,24 @@ def bounded(tier, seed, R):
                 return False
         return W.same(a, b)
 
+    import shutil
+    import tempfile
+    tmpdir = tempfile.mkdtemp(prefix='pycel-verif-c09-', dir=os.environ.get('TMPDIR'))
+    n_stored = [0]
     for wb, circular in [(w, False) for w in wbs] + [(w, True) for w in cyc]:
         for target in list(wb.formulas):
             orig = wb.formulas[target]
-            for kind in ('unknown-function', 'plugin-armed', 'plugin-nameerror', 'plugin-kth'):
+            for kind in ('unknown-function', 'plugin-armed', 'plugin-nameerror', 'plugin-kth', 'unknown-function/stored'):
                 for cycles in ((True,) if circular else (False, True)):
+                    # '/stored': the model is read from an .xlsx whose formula cells carry stored results, except the
+                    # failing one (a formula stored without a result): its dependants start out with a value
+                    stored = kind.endswith('/stored')
+                    if stored:
+                        if cycles or circular or wb.arrays or '!' in ''.join(wb.cells()) or n_stored[0] >= (40 if not thorough else 400):
+                            continue
+                        n_stored[0] += 1
                     broken = W.WB(wb.inputs, wb.formulas, wb.name, wb.arrays)
-                    if kind == 'unknown-function':
+                    if kind.startswith('unknown-function'):
                         broken.formulas[target] = f'=nosuchfunction({orig[1:]})'
                     else:
                         broken.formulas[target] = f'=boom({orig[1:]})'
@@ -259,7 +282,18 @@ def bounded(tier, seed, R):
                         repaired = W.WB(dict(wb.inputs, **{target: 7}),
                                         {c: f for c, f in wb.formulas.items() if c != target}, wb.name, wb.arrays)
                         state['want_repaired'] = fresh_values(repaired, repaired.cells(), cycles)
-                        comp = W.compile_mem(broken, cycles=cycles or None, plugins=(plug.__name__,))
+                        if stored:
+                            from pycel import ExcelCompiler
+                            path = os.path.join(tmpdir, f'stored{n_stored[0]}.xlsx')
+                            res = W.oracle_values(wb, list(wb.formulas))
+                            res[target] = None
+                            W.save_xlsx_with_results(broken, path, results=res)
+                            comp = ExcelCompiler(filename=path, plugins=(plug.__name__,))
+                            if rnd.random() < 0.5:
+                                state['comp'] = comp        # nothing evaluated before the failure
+                                return True
+                        else:
+                            comp = W.compile_mem(broken, cycles=cycles or None, plugins=(plug.__name__,))
                         if rnd.random() < 0.5 and others:
                             comp.evaluate(W.addr(rnd.choice(others)), **kw)      # something already cached
                         if rnd.random() < 0.7:
@@ -288,7 +322,7 @@ def bounded(tier, seed, R):
                         except BaseException as e:
                             return ('internal', f'{type(e).__name__}: {e}'[:300])
 
-                    first = outcome(target)
+                    first = outcome(dependants[-1] if stored and dependants and rnd.random() < 0.7 else target)
                     R.check('bounded/failure_is_a_pycel_error', first[0] == 'pycel-error', dict(w, outcome=first))
                     if kind == 'plugin-kth':
                         # transient: a retry may succeed, but only with the right value
@@ -319,6 +353,7 @@ def bounded(tier, seed, R):
                                     dict(w, cell=c, outcome=o, want=state['want_repaired'][c], dependent=c in dep))
                     plug.armed = False
                     plug.countdown = None
+    shutil.rmtree(tmpdir, ignore_errors=True)
 
 
 def kf_iterative_set_value_keeps_formula(w):
